@@ -155,4 +155,62 @@ def build(module):
             ensures=['closed_right()', 'result is None'],
             raises={'Boom': 'closed_right() and propagated(__exc__)'},
             env=envw, notes=label))
+    # ---- io.write with a list of nodes (and things that are not nodes): the chunks of every Node entry, in order; nothing else
+    log = {}
+
+    class ListModel(object):
+        def __init__(self, pattern):
+            self.pattern = pattern           # 'N' = a Node, 'x' = something else
+
+        def make(self, name):
+            log.clear()
+            log['calls'] = []
+            log['items'] = [PObj(Node, name='node%d' % i) if c_ == 'N' else 'not a node %d' % i for i, c_ in enumerate(self.pattern)]
+            return PList(list(log['items']))
+
+        def __repr__(self):
+            return 'Nodes[%s]' % self.pattern
+
+    class UnparserLog(object):
+        def make(self, name):
+            def eff(e, a, k):
+                log['calls'].append(a[0])
+                g = PGen([PObj(object, name='chunk_of_%s' % getattr(a[0], 'name', '?'))])
+                log.setdefault('gens', []).append(g)
+                return g
+            return PExt('unparser', eff, raises=(Boom,))
+
+    def chain_model(e, a, k):
+        log['chained'] = list(a)
+        out = []
+        for g in a:
+            out.extend(g.items)
+        return PGen(out)
+
+    def sm_write2(e, a, k):
+        log['written'] = a[0]
+        return (PList([]), PList([]), PList([]))
+    smod2 = PObj(object, name='sourcemap')
+    smod2.fields['write'] = PExt('sourcemap.write', sm_write2, raises=(Boom,))
+    smod2.fields['write_sourcemap'] = PExt('sourcemap.write_sourcemap', None, raises=(Boom,))
+    envl = dict(env)
+    envl.update(sourcemap=smod2, chain=PExt('itertools.chain', chain_model),
+                unparsed_nodes=Helper(lambda e: [x for x in log['calls']] == [x for x in log['items'] if isinstance(x, PObj)]
+                                      and all(a_ is b_ for a_, b_ in zip(log['calls'], [x for x in log['items'] if isinstance(x, PObj)]))),
+                chained_all=Helper(lambda e: len(log.get('chained', [])) == len(log.get('gens', [])) and all(a_ is b_ for a_, b_ in zip(log['chained'], log['gens']))),
+                wrote_chain=Helper(lambda e: isinstance(log.get('written'), PGen) and len(log['written'].items) == len(log['calls'])))
+    for pattern in ('NN', 'NxN', 'xN', 'N'):
+        for label, out_t, map_t in arrangements[:2] + arrangements[4:5]:
+            cs.append(Contract(
+                MODULE + ':write',
+                params={'unparser': UnparserLog(), 'nodes': ListModel(pattern), 'output_stream': out_t, 'sourcemap_stream': map_t,
+                        'sourcemap_normalize_mappings': Const(True), 'sourcemap_normalize_paths': Const(True), 'source_mapping_url': Const(NotImplemented)},
+                ensures=['closed_right()', 'result is None', 'unparsed_nodes()', 'chained_all()', 'wrote_chain()'],
+                raises={'Boom': 'closed_right() and propagated(__exc__)'}, env=envl, notes='node list %s, %s' % (pattern, label)))
+    for pattern in ('', 'x', 'xx'):
+        cs.append(Contract(
+            MODULE + ':write',
+            params={'unparser': UnparserLog(), 'nodes': ListModel(pattern), 'output_stream': arrangements[0][1], 'sourcemap_stream': Const(None),
+                    'sourcemap_normalize_mappings': Const(True), 'sourcemap_normalize_paths': Const(True), 'source_mapping_url': Const(NotImplemented)},
+            ensures=['False'], raises={'TypeError': 'closed_right()'}, env=envl, notes='no Node in the list (%r): TypeError before any stream is opened' % pattern))
     return cs, [], env
